@@ -13,6 +13,7 @@
   hypotheses on the input, assembled from per-pass lemmas `post_P` / `keeps_P` (lean/Cog/NF/*.lean).
 -/
 import Cog.NF.EnumNames
+import Cog.NF.Assemble
 import Cog.NF.Witness
 import Cog.Gen.Chains
 namespace Cog.C06
@@ -107,6 +108,40 @@ theorem C06_typescript_partial (S S' : Schemas) (hn : EnumsNamed S = true) (hr :
 example : let S := Witness.schemas [Witness.obj "E" (.enum [{ name := "1", value := .int "i64" 1, kind := "int64" }] {})]
     EnumsNamed S = true ∧ NumericNamesInRange S = true ∧ (∃ S', chain typescriptChain S = .ok S') := by
   refine ⟨by decide, by decide, ?_⟩
+  exact ⟨_, rfl⟩
+
+/-! ## Python -/
+
+/-- Python: every struct outside an allOf composition is a named object — for EVERY well-formed
+    input.  `AnonymousStructsToNamed` establishes it (structural induction over the type tree,
+    including the objects it creates) and each later pass of the regenerated chain keeps it. -/
+theorem C06_python_StructsNamedOutsideAllOf (S S' : Schemas) (hw : wfIR S = true)
+    (h : chain pythonChain S = .ok S') : StructsNamedOutsideAllOf S' = true := by
+  rw [StructsNamed_iff]
+  exact chain_via (H := fun S => wfIR S = true) (Q := AllTop qNoStruct) .anonymousStructsToNamed
+    (fun _ => false) keepsPlain pythonChain (by simp)
+    (fun S S' hH hr => post_AnonymousStructsToNamed S S' hH hr)
+    (keepsPlain_sound qNoStruct qNoStruct_plain) (by decide) S S' hw h
+
+/-- Python: every non-required field is nullable, provided the map index types of the input are
+    scalars or references (the visitor does not walk map index types).
+    `NotRequiredFieldAsNullableType` establishes it, every later pass keeps it. -/
+theorem C06_python_NonRequiredNullable_partial (S S' : Schemas) (hi : SimpleIndex S = true)
+    (h : chain pythonChain S = .ok S') : NonRequiredNullable S' = true := by
+  rw [NonRequiredNullable_iff]
+  exact chain_via (H := AllTop qIdx) (Q := AllTop qNrn) .notRequiredFieldAsNullableType
+    (fun p => p == .anonymousStructsToNamed) keepsPlain pythonChain
+    (fun p hp S S' hS hr => by
+      have : p = .anonymousStructsToNamed := by simpa using hp
+      subst this; exact keeps_AnonymousStructsToNamed_idx S S' hS hr)
+    (fun S S' hH hr => post_NotRequiredFieldAsNullableType S S' hH hr)
+    (keepsPlain_sound qNrn qNrn_plain) (by decide) S S' ((SimpleIndex_iff S).1 hi) h
+
+/-- non-vacuity: an input with a non-required, non-nullable field and an anonymous struct -/
+example : let S := Witness.schemas [Witness.obj "A" (.struct [Witness.fld "f" (.array (.struct [Witness.fld "g" Witness.str false] [] none {}) {}) false] [] none {})]
+    wfIR S = true ∧ SimpleIndex S = true ∧ NonRequiredNullable S = false ∧ StructsNamedOutsideAllOf S = false ∧
+    (∃ S', chain pythonChain S = .ok S') := by
+  refine ⟨by decide, by decide, by decide, by decide, ?_⟩
   exact ⟨_, rfl⟩
 
 end Cog.C06
